@@ -199,7 +199,8 @@ func (self *linkedPairs) BuildIndex() {
 	if self.index == nil {
 		self.index = make(map[uint64]int, self.size)
 	}
-	for i := 0; i < self.size; i++ {
+	// a duplicated key must resolve to its first occurrence, as the linear search does
+	for i := self.size - 1; i >= 0; i-- {
 		p := self.At(i)
 		self.index[p.hash] = i
 	}
@@ -249,7 +250,16 @@ func (self *linkedPairs) Pop() {
 func (self *linkedPairs) Unset(i int) {
 	if self.index != nil {
 		p := self.At(i)
-		delete(self.index, p.hash)
+		if j, ok := self.index[p.hash]; ok && j == i {
+			delete(self.index, p.hash)
+			// a later pair with the same key becomes the first occurrence
+			for k := i + 1; k < self.size; k++ {
+				if q := self.At(k); q.hash == p.hash && q.Key == p.Key {
+					self.index[p.hash] = k
+					break
+				}
+			}
+		}
 	}
 	self.set(i, Pair{})
 }
@@ -257,7 +267,9 @@ func (self *linkedPairs) Unset(i int) {
 func (self *linkedPairs) Set(i int, v Pair) {
 	if self.index != nil {
 		h := v.hash
-		self.index[h] = i
+		if j, ok := self.index[h]; !ok || i < j {
+			self.index[h] = i
+		}
 	}
 	self.set(i, v)
 }
@@ -412,6 +424,13 @@ func (self *linkedPairs) Swap(i, j int) {
 
 func (self *linkedPairs) Sort() {
 	sort.Stable(self)
+	if self.index != nil {
+		// Swap tracks single keys only; duplicated keys must point at their first occurrence again
+		for k := range self.index {
+			delete(self.index, k)
+		}
+		self.BuildIndex()
+	}
 }
 
 // Compare two strings from the pos d.
